@@ -326,11 +326,11 @@ func c02Combinator(r *sim.Run) {
 		}
 		desc := func() string { return fmt.Sprintf("%s with failing position(s) %v of %s", name, plan, e.describe()) }
 		if pan != nil {
-			r.Violate("combinator-panic", "%s panicked: %v", desc(), pan)
+			r.Violate("combinator-panic:"+fam, "%s panicked: %v", desc(), pan)
 			return false
 		}
 		if e.headBad != "" {
-			r.Violate("chain-head", "%s: %s", desc(), e.headBad)
+			r.Violate("chain-head:"+fam, "%s: %s", desc(), e.headBad)
 			return false
 		}
 		if got != expRes {
@@ -338,11 +338,11 @@ func c02Combinator(r *sim.Run) {
 			if !got.ok && !expRes.ok {
 				cls = "wrong-failure"
 			}
-			r.Violate(cls, "%s returned %s, want %s", desc(), got, expRes)
+			r.Violate(cls+":"+fam, "%s returned %s, want %s", desc(), got, expRes)
 			return false
 		}
 		if fmt.Sprint(e.calls) != fmt.Sprint(expCalls) {
-			r.Violate("wrong-calls", "%s invoked callbacks at positions %v, want %v (each once, in order, none after the first failure)", desc(), e.calls, expCalls)
+			r.Violate("wrong-calls:"+fam, "%s invoked callbacks at positions %v, want %v (each once, in order, none after the first failure)", desc(), e.calls, expCalls)
 			return false
 		}
 		return true
